@@ -97,7 +97,7 @@ UNITS = {
     "server": {
         "uses": [],
         "preludes": ["shims/core.rs", "shims/bytes.rs", "shims/env.rs", "shims/io.rs", "shims/cursor.rs"],
-        "specs": ["contracts/spec/hv.rs", "contracts/spec/crlf.rs", "contracts/spec/request.rs", "contracts/spec/lines.rs", "contracts/spec/request_read.rs", "contracts/spec/http.rs", "contracts/spec/lookup.rs", "contracts/spec/cors.rs", "contracts/spec/headers.rs", "contracts/spec/frames.rs", "contracts/spec/app.rs", "contracts/spec/server.rs", "contracts/spec/names_status.rs", "contracts/spec/c10_thm.rs"],
+        "specs": ["contracts/spec/hv.rs", "contracts/spec/crlf.rs", "contracts/spec/request.rs", "contracts/spec/lines.rs", "contracts/spec/request_read.rs", "contracts/spec/http.rs", "contracts/spec/lookup.rs", "contracts/spec/cors.rs", "contracts/spec/headers.rs", "contracts/spec/frames.rs", "contracts/spec/frame_halves.rs", "contracts/spec/app.rs", "contracts/spec/server.rs", "contracts/spec/names_status.rs", "contracts/spec/c10_thm.rs"],
         "sources": [
             SYMBOL_SRC,
             ("src/http/mod.rs", ["struct:Version", "const:VERSION"]),
@@ -145,7 +145,7 @@ UNITS = {
     },
     "static": {
         "preludes": ["shims/core.rs", "shims/bytes.rs", "shims/fs.rs"],
-        "specs": ["contracts/spec/hv.rs", "contracts/spec/lookup.rs", "contracts/spec/range.rs", "contracts/spec/frames.rs", "contracts/spec/static.rs"],
+        "specs": ["contracts/spec/hv.rs", "contracts/spec/lookup.rs", "contracts/spec/range.rs", "contracts/spec/frames.rs", "contracts/spec/frame_halves.rs", "contracts/spec/static.rs"],
         "sources": [
             SYMBOL_SRC,
             ("src/header/mod.rs", ["struct:Header", "consts:Header"]),
@@ -165,7 +165,7 @@ UNITS = {
     },
     "app": {
         "preludes": ["shims/core.rs", "shims/bytes.rs", "shims/env.rs", "shims/fs.rs"],
-        "specs": ["contracts/spec/hv.rs", "contracts/spec/lookup.rs", "contracts/spec/cors.rs", "contracts/spec/headers.rs", "contracts/spec/frames.rs", "contracts/spec/static.rs", "contracts/spec/app.rs", "contracts/spec/dispatch.rs"],
+        "specs": ["contracts/spec/hv.rs", "contracts/spec/lookup.rs", "contracts/spec/cors.rs", "contracts/spec/headers.rs", "contracts/spec/frames.rs", "contracts/spec/frame_halves.rs", "contracts/spec/static.rs", "contracts/spec/app.rs", "contracts/spec/dispatch.rs"],
         "sources": [
             SYMBOL_SRC,
             ("src/http/mod.rs", ["struct:Version", "const:VERSION"]),
@@ -194,7 +194,7 @@ UNITS = {
     },
     "controllers": {
         "preludes": ["shims/core.rs", "shims/bytes.rs", "shims/env.rs", "shims/fs.rs"],
-        "specs": ["contracts/spec/hv.rs", "contracts/spec/lookup.rs", "contracts/spec/cors.rs", "contracts/spec/headers.rs", "contracts/spec/frames.rs", "contracts/spec/static.rs", "contracts/spec/app.rs"],
+        "specs": ["contracts/spec/hv.rs", "contracts/spec/lookup.rs", "contracts/spec/cors.rs", "contracts/spec/headers.rs", "contracts/spec/frames.rs", "contracts/spec/frame_halves.rs", "contracts/spec/static.rs", "contracts/spec/app.rs"],
         "sources": [
             SYMBOL_SRC,
             ("src/http/mod.rs", ["struct:Version", "const:VERSION"]),
@@ -231,7 +231,7 @@ UNITS = {
     },
     "forms": {
         "preludes": ["shims/core.rs", "shims/bytes.rs", "shims/env.rs", "shims/fs.rs", "shims/forms.rs", "shims/ctl.rs"],
-        "specs": ["contracts/spec/hv.rs", "contracts/spec/lookup.rs", "contracts/spec/frames.rs", "contracts/spec/static.rs"],
+        "specs": ["contracts/spec/hv.rs", "contracts/spec/lookup.rs", "contracts/spec/frames.rs", "contracts/spec/frame_halves.rs", "contracts/spec/static.rs"],
         "sources": [
             SYMBOL_SRC,
             ("src/header/mod.rs", ["struct:Header", "consts:Header"]),
